@@ -253,9 +253,13 @@ fn apply(w: &mut World, op: &WOp) -> OpResult {
             OpResult::Unit
         }
         WOp::Ptr(len) => {
+            let st = writer.verif_state();
             let p = writer.buf_write_ptr(*len);
             if p.is_null() {
                 OpResult::Ptr { null: true }
+            } else if *len > st.capacity - st.len {
+                // a pointer was handed out although the space is not there: do NOT write through it
+                OpResult::Ptr { null: false }
             } else {
                 let data = next_bytes(stream, *len);
                 stream.extend_from_slice(&data);
@@ -316,7 +320,7 @@ fn oracle(cfg: &Cfg, mode: Mode, w: &mut World, op: &WOp, b: &Before, res: &OpRe
         p.push(("safety", format!("buffer capacity changed from {:?} to {} (reallocation: a write went past the reserved space)", cfg.capacity, st.capacity)));
     }
     if let OpResult::Panicked(m, l) = res {
-        let sink_panicked = w.sink.borrow().panics > 0;
+        let sink_panicked = w.sink.borrow().panics > 0 && m.contains("scripted sink panic");
         if !(sink_panicked && matches!(cfg.fail, Fail::PanicAt(_))) {
             p.push(("panic", format!("{op:?} panicked: {m} @ {l}")));
             return p;
@@ -518,7 +522,7 @@ fn alphabet(cfg: &Cfg, mode: Mode, w: &World, tier: Tier) -> Vec<WOp> {
             ops.push(WOp::Digits(ti, vi));
         }
     }
-    for l in [0usize, 1, free, free + 1] {
+    for l in [0usize, 1, free, free + 1, usize::MAX, usize::MAX / 2 + 1, (usize::MAX - st.len).wrapping_add(1), usize::MAX - st.len] {
         ops.push(WOp::Ptr(l));
     }
     ops.sort_by_key(|o| format!("{o:?}"));
@@ -621,7 +625,7 @@ fn op_json(op: &WOp) -> Value {
         WOp::WriteAll(l) => json!(["write_all", l]),
         WOp::WriteDefer(l) => json!(["write_all_defer_err", l]),
         WOp::Digits(t, v) => json!(["ascii_digits", t, v, INT_TYPES[*t as usize]]),
-        WOp::Ptr(l) => json!(["buf_write_ptr", l]),
+        WOp::Ptr(l) => json!(["buf_write_ptr", l.to_string()]),
         WOp::Flush => json!(["flush"]),
         WOp::FlushDefer => json!(["flush_defer_err"]),
         WOp::Check => json!(["check_io_error"]),
@@ -635,7 +639,7 @@ fn op_from_json(v: &Value) -> WOp {
         "write_all" => WOp::WriteAll(a(1)),
         "write_all_defer_err" => WOp::WriteDefer(a(1)),
         "ascii_digits" => WOp::Digits(a(1) as u8, a(2) as u8),
-        "buf_write_ptr" => WOp::Ptr(a(1)),
+        "buf_write_ptr" => WOp::Ptr(v[1].as_str().map_or_else(|| a(1), |t| t.parse().unwrap())),
         "flush" => WOp::Flush,
         "flush_defer_err" => WOp::FlushDefer,
         "check_io_error" => WOp::Check,
